@@ -90,6 +90,11 @@ async def _run(recipe, lines, tags):
     c09env.install_clock()
     lines.append(f"cfg {tok_str(c09env.HOST)} {tok_str(c09env.CALLBACK)}")
     lines.extend(c09env.decl_lines(svc_vars))
+    cb_count = [0] * len(svcs)
+    for i, s_ in enumerate(svcs):
+        def _cb(svc, vs, i_=i):
+            cb_count[i_] += 1
+        s_.on_event = _cb
     loop = asyncio.get_running_loop()
     futs: Dict[int, asyncio.Future] = {}
     tasks: Dict[int, asyncio.Task] = {}
@@ -174,6 +179,7 @@ async def _run(recipe, lines, tags):
             raise ValueError(kind)
         for i, s in enumerate(svcs):
             lines.append(c09env.state_line(i, s))
+        lines.append("cb " + (",".join(str(c) for c in cb_count) or "~"))
         k += 1
     for t in tasks.values():
         t.cancel()
